@@ -979,87 +979,3 @@ pub fn extract_metadata<'a>(
         None => fibex_metadata.frame_map.get(&id_text),
     }
 }
-
-/// Hooks for the out-of-tree verification harnesses (feature `verif_hooks`):
-/// the assembly loops `read_pdu` / `read_frame` / the per-file loop are driven
-/// by an event sequence supplied by the harness instead of an XML file.
-/// `read_event_stub` has the signature of `Reader::read_event` and is meant to
-/// replace it through the verifier's stubbing facility. Add-only.
-#[cfg(feature = "verif_hooks")]
-#[doc(hidden)]
-pub mod verif_hooks {
-    use super::*;
-
-    pub const QLEN: usize = 8;
-    /// event codes: 0 Eof, 1 PduStart, 2 PduEnd, 3 SignalInstance, 4 FrameStart,
-    /// 5 FrameEnd, 6 ManufacturerExtension, 7 PduInstance, 8 Signal, 9 Coding,
-    /// 10 = read error
-    pub static mut EVENT_CODES: [u8; QLEN] = [0; QLEN];
-    pub static mut EVENT_SEQ: [usize; QLEN] = [0; QLEN];
-    pub static mut EVENT_POS: usize = 0;
-
-    /// Next event of the supplied sequence; `Eof` forever once it is exhausted
-    /// (quick-xml keeps returning Eof at the end of input).
-    pub fn read_event_stub<B: BufRead>(_r: &mut Reader<B>) -> Result<Event, Error> {
-        let (code, seq) = unsafe {
-            if EVENT_POS < QLEN {
-                let c = (EVENT_CODES[EVENT_POS], EVENT_SEQ[EVENT_POS]);
-                EVENT_POS += 1;
-                c
-            } else {
-                (0, 0)
-            }
-        };
-        Ok(match code {
-            1 => Event::PduStart { id: String::new() },
-            2 => Event::PduEnd { short_name: None, description: None, byte_length: 0 },
-            3 => Event::SignalInstance { id: String::new(), sequence_number: seq, signal_ref: String::new() },
-            4 => Event::FrameStart { id: String::new() },
-            5 => Event::FrameEnd { short_name: String::new(), byte_length: 0 },
-            6 => Event::ManufacturerExtension { message_type: None, message_info: None, application_id: None, context_id: None },
-            7 => Event::PduInstance { id: String::new(), pdu_ref: String::new(), sequence_number: seq },
-            8 => Event::Signal { id: String::new(), coding_ref: String::new() },
-            9 => Event::Coding { id: String::new(), base_data_type: String::new() },
-            10 => return Err(Error::Parse(String::new())),
-            _ => Event::Eof,
-        })
-    }
-
-    /// A reader object over an unopened descriptor: never read from when
-    /// `read_event` is replaced by `read_event_stub`.
-    pub struct HookReader(Reader<BufReader<File>>);
-
-    pub fn reader_without_io() -> HookReader {
-        use std::os::unix::io::FromRawFd;
-        let file = unsafe { File::from_raw_fd(-1 + 1000) };
-        HookReader(Reader {
-            xml_reader: XmlReaderWithContext { file_path: PathBuf::new(), xml_reader: XmlReader::from_reader(BufReader::with_capacity(1, file)) },
-            buf: vec![],
-            buf2: vec![],
-            short_name: None,
-            description: None,
-            byte_length: None,
-            r#type: None,
-            id: None,
-            sequence_number: None,
-            r#ref: None,
-            application_id: None,
-            context_id: None,
-            message_type: None,
-            message_info: None,
-            base_data_type: None,
-        })
-    }
-
-    /// Ok(number of signal refs) / Err
-    pub fn run_read_pdu(r: &mut HookReader) -> Result<usize, Error> {
-        read_pdu(&mut r.0).map(|(_, refs)| refs.len())
-    }
-    /// Ok(number of pdu refs) / Err
-    pub fn run_read_frame(r: &mut HookReader) -> Result<usize, Error> {
-        read_frame(&mut r.0).map(|f| f.pdu_refs.len())
-    }
-    pub fn next_event_is_eof(r: &mut HookReader) -> bool {
-        matches!(r.0.read_event(), Ok(Event::Eof))
-    }
-}
